@@ -529,7 +529,10 @@ impl<'cmd> Parser<'cmd> {
             && (arg_os.is_long() || arg_os.is_short());
 
         if self.cmd.has_subcommands() {
-            if self.cmd.is_args_conflicts_with_subcommands_set() && valid_arg_found {
+            if self.cmd.is_args_conflicts_with_subcommands_set()
+                && valid_arg_found
+                && self.possible_subcommand(arg_os.to_value(), false).is_some()
+            {
                 return ClapError::subcommand_conflict(
                     self.cmd,
                     arg_os.display().to_string(),
